@@ -718,6 +718,10 @@ def makes_parser(f, call):
     parser constructed there over the bytes it was given?"""
     from ..astutil import returned
     fn = call.func
+    if isinstance(fn, ast.Name) and f.module.bindings.get(fn.id, (None,))[0] == 'func':
+        m = f.module.bindings[fn.id][1]       # a helper function of the module (``parser = _get_record_parser(cls, parsable)``)
+        rets = returned(m.node)
+        return bool(rets) and all(isinstance(r, ast.Call) and ast.unparse(r.func) in ('ParserBinary', 'ParserText') for r in rets)
     if not (isinstance(fn, ast.Attribute) and isinstance(fn.value, ast.Name) and fn.value.id in ('cls', 'self') and f.cls is not None):
         return False
     m = f.cls.resolve(fn.attr)
